@@ -12,14 +12,18 @@ replace (
 )
 
 require (
+	cosmossdk.io/collections v1.0.0
 	cosmossdk.io/log v1.5.0
 	cosmossdk.io/math v1.5.0
 	cosmossdk.io/store v1.10.0-rc.1.0.20241218084712-ca559989da43
 	cosmossdk.io/x/bank v0.2.0-rc.1
+	cosmossdk.io/x/gov v0.2.0-rc.1
 	cosmossdk.io/x/slashing v0.2.0-rc.1
 	cosmossdk.io/x/staking v0.2.0-rc.1
 	github.com/cometbft/cometbft v1.0.0
 	github.com/cometbft/cometbft/api v1.0.0
+	github.com/consensys/gnark v0.12.0
+	github.com/consensys/gnark-crypto v0.15.0
 	github.com/cosmos/cosmos-db v1.1.1
 	github.com/cosmos/cosmos-sdk v0.53.0
 	github.com/sunriselayer/sunrise v0.0.0-00010101000000-000000000000
@@ -36,7 +40,6 @@ require (
 	cloud.google.com/go/storage v1.43.0 // indirect
 	cosmossdk.io/api v0.8.2 // indirect
 	cosmossdk.io/client/v2 v2.10.0-beta.3 // indirect
-	cosmossdk.io/collections v1.0.0 // indirect
 	cosmossdk.io/core v1.0.0 // indirect
 	cosmossdk.io/core/testing v0.0.1 // indirect
 	cosmossdk.io/depinject v1.1.0 // indirect
@@ -54,7 +57,6 @@ require (
 	cosmossdk.io/x/epochs v0.2.0-rc.1 // indirect
 	cosmossdk.io/x/evidence v0.2.0-rc.1 // indirect
 	cosmossdk.io/x/feegrant v0.2.0-rc.1 // indirect
-	cosmossdk.io/x/gov v0.2.0-rc.1 // indirect
 	cosmossdk.io/x/group v0.2.0-rc.1 // indirect
 	cosmossdk.io/x/mint v0.2.0-rc.1 // indirect
 	cosmossdk.io/x/nft v0.2.0-rc.1 // indirect
@@ -87,8 +89,6 @@ require (
 	github.com/cockroachdb/tokenbucket v0.0.0-20230807174530-cc333fc44b06 // indirect
 	github.com/cometbft/cometbft-db v1.0.1 // indirect
 	github.com/consensys/bavard v0.1.27 // indirect
-	github.com/consensys/gnark v0.12.0 // indirect
-	github.com/consensys/gnark-crypto v0.15.0 // indirect
 	github.com/cosmos/btcutil v1.0.5 // indirect
 	github.com/cosmos/cosmos-proto v1.0.0-beta.5 // indirect
 	github.com/cosmos/go-bip39 v1.0.0 // indirect
